@@ -112,6 +112,28 @@ def _text(x):
 
 
 def cases(tier, rng):
+    # text arriving as a NumPy string array / object array / 0-d array (type dispatch of as_encoded_array), with one foreign
+    # character at a random position in a fraction of the cases: ASCII, NUL, and code points whose UTF-32 bytes are an alphabet
+    # letter plus zeros (U+4100 'A', U+4300 'C', U+4700 'G', U+5400 'T')
+    for n in ENC_NAMES:
+        A = _static_alphabet(n)
+        for _ in range(60 if tier != "quick" else 12):
+            rows = [[rng.choice(A) for _ in range(rng.choice([0, 1, 2, 4, 7]))] for _ in range(rng.choice([1, 1, 2, 3, 5]))]
+            rows = [[(b + 32 if 65 <= b <= 90 and rng.random() < 0.2 else b) for b in r] for r in rows]
+            kind = rng.choice(["U", "U", "O", "0d"])
+            if kind == "0d":
+                rows = rows[:1]
+            foreign = None
+            if rng.random() < 0.5 and any(rows):
+                i = rng.choice([k for k, r in enumerate(rows) if r])
+                j = rng.randrange(len(rows[i]))
+                foreign = rng.choice([0, 0x4100, 0x4300, 0x4700, 0x5400, 0x100 + rows[i][j], 88, 35, 0x10000 + rows[i][j]] + [b for b in range(33, 127) if not _accepts(A, b)][:3])
+                if foreign == 0 and j == len(rows[i]) - 1:
+                    foreign = 0x4100          # NumPy itself strips a trailing NUL from fixed-width strings
+                if _accepts(A, foreign):
+                    foreign = 0x4100
+                rows[i] = rows[i][:j] + [foreign] + rows[i][j + 1:]
+            yield {"op": "enc_np", "enc": n, "rows": rows, "kind": kind, "foreign": foreign}
     for n in OFFSET_NAMES:
         for b in range(256):
             yield {"op": "offset_byte", "enc": n, "b": b}
@@ -202,6 +224,8 @@ def nontrivial(c):
         return True
     if c["op"] in ("retarget", "change", "retarget_view", "change_view"):
         return c["src"] != c["tgt"]
+    if c["op"] == "enc_np":
+        return True
     flat = c["s"] if "s" in c else [x for r in c["rows"] for x in r]
     return any(97 <= b <= 122 for b in flat) or len(flat) >= 2
 
@@ -249,6 +273,18 @@ def impl(c):
                 r = as_encoded_array(EncodedArray(np.array(s, dtype=np.uint8), BaseEncoding), E)
             return {"codes": [int(x) for x in np.asarray(r.raw()).ravel()], "dec": [int(x) for x in E.decode(r).raw().ravel()],
                     "enc_same": r.encoding == E}
+        if op == "enc_np":
+            E = _encs()[c["enc"]]
+            texts = ["".join(chr(b) for b in r) for r in c["rows"]]
+            if c["kind"] == "0d":
+                arr = np.array(texts[0])
+                r = as_encoded_array(arr, E)
+                d = E.decode(r)
+                return {"rows": [[int(x) for x in np.atleast_1d(d.raw())]], "enc_same": r.encoding == E}
+            arr = np.array(texts, dtype=object) if c["kind"] == "O" else np.array(texts)
+            r = as_encoded_array(arr, E)
+            d = E.decode(r)
+            return {"rows": [[int(x) for x in row.raw()] for row in d], "enc_same": r.encoding == E}
         if op == "enc_ragged":
             E = _encs()[c["enc"]]
             rows = c["rows"]
@@ -278,6 +314,8 @@ def impl(c):
         off = getattr(e, "offset", None)
         return {"err": "encoding", "offset": int(off) if (off is not None and op in ("enc_str",)) else None}
     except Exception as e:
+        if op == "enc_np" and c["foreign"] is not None:
+            return {"err": "encoding", "offset": None}     # any exception rejects the foreign character (NumPy-level code points raise OverflowError)
         if op in ("retarget", "change", "retarget_view", "change_view"):
             # the property allows these to raise (any exception) instead of returning data; only silent change is a failure
             return {"err": "encoding", "offset": None}
@@ -338,8 +376,12 @@ def oracle(c):
         return {"rows_or_error": [[_up(b) for b in r] for r in _select_rows(c["rows"], c)]}
     if op in ("retarget", "change"):
         return {"text_or_error": [_up(b) for b in c["s"]]}
-    A = [ord(ch) for ch in _encs()[c["enc"]].get_alphabet()]
     A = _static_alphabet(c["enc"])
+    if op == "enc_np":
+        if c["foreign"] is not None:
+            return {"err": "encoding", "offset": None}
+        rows = c["rows"][:1] if c["kind"] == "0d" else c["rows"]
+        return {"rows": [[_up(b) for b in r] for r in rows], "enc_same": True}
     if op == "enc_byte":
         b = c["b"]
         if _accepts(A, b):
@@ -380,6 +422,8 @@ def agree(c, got, exp):
 
 
 def model_request(c):
+    if c["op"] == "enc_np":
+        return None        # entry-path dispatch: decided against the oracle (the byte-level model is the same as enc_ragged)
     if c["op"] in ("retarget_view", "change_view"):
         # the model is applied to the selected rows: a selection only changes WHICH rows are presented
         return dict(c, rows=_select_rows(c["rows"], c))
@@ -390,7 +434,7 @@ def finding_key(c, got, exp):
     op = c["op"]
     if op in ("offset_byte", "offset_rows"):
         return "offset-encoding:" + c["enc"]
-    if op in ("enc_byte", "enc_str", "enc_ragged"):
+    if op in ("enc_byte", "enc_str", "enc_ragged", "enc_np"):
         if isinstance(got, dict) and "err" not in got and "err" in exp:
             return "encode:accepts-foreign-byte"
         if isinstance(got, dict) and "err" in got and "err" not in exp:
@@ -445,6 +489,15 @@ def impl_live(c):
 def mutate_live(obj, c):
     """overwrite the first element of an encoded result with another letter of its own alphabet"""
     from bionumpy.encoded_array import EncodedArray, EncodedRaggedArray
+    for getter in ("get_labels", "get_alphabet"):
+        # a caller may sort / edit the list of labels it was handed: that must not reach the encoding itself
+        try:
+            L = getattr(obj.encoding, getter)()
+        except Exception:
+            continue
+        if isinstance(L, list) and len(L) > 1:
+            L.reverse()
+            L.append("#")
     flat = obj.ravel() if isinstance(obj, EncodedRaggedArray) else obj
     if not isinstance(flat, EncodedArray) or flat.size == 0:
         return False
